@@ -8,7 +8,8 @@ LEVEL_TEXT = ("static: decides on every path that the transition relation of the
               "machine (in particular: no transition out of SUPPORTED except under the regression timer), that no cookie is attached on TCP, "
               "that a response without a server cookie is never accepted while SUPPORTED, that the BADCOOKIE resend counter forces TCP at three, "
               "that cookie application precedes every serialisation of a query, that the client cookie is regenerated only for the three "
-              "enumerated reasons, and that the server-cookie copy is bounded by its destination. Does not decide timer arithmetic over virtual time.")
+              "enumerated reasons, and that the server-cookie copy is bounded by its destination. Does not decide timer arithmetic over virtual time."
+              " Also decides (CONST/GATE/DISARM) reflexive address test, nothing acted on before the cookie gate, timer disarmed by every valid cookie, (TIMER) the timestamp predicate and the response-cookie length filter exactly, the regression start recorded once, the local address read after connect.")
 LEVEL_NOTE = "trusts clang CFG + extractor; the regression/unsupported timer guards are recognised as calls to timeval_expired on cookie->unsupported_ts (callee resolved by declaration)"
 DESIGN_REF = "DESIGN.md §6/C17"
 EXPLANATION = LEVEL_TEXT
